@@ -29,3 +29,35 @@ PROPS["C18"] = simple(
     assumptions=["reference models (slice with cursor; left/mid deque) are the trusted reading of the statement",
                  "Get on an uncontained offset is expected to panic (documented in the statement's anchors); every other panic is a violation"],
 )
+
+PROPS["C13"] = simple(
+    "verifchk/c13", "TestVerifC13", "exploration",
+    "ansi.Wrap/DumbWrap/Pad/Indent/Snip/SetLength on (a) every string of length <= 6 over {a,b,space,newline}, plain and bold, "
+    "at widths 1..4 and heights 1..4 (enumerated), and (b) PRNG styled text: six alphabets (ASCII, Latin-1, CJK, emoji, combining, Greek), "
+    "13 whitespace kinds, words shorter/equal/longer than the width, 0..4 nested styles per segment, widths 1..40, 80, 200, heights 1..8. "
+    "Non-trivial = input has at least one visible character; distinct = (function, width, height, input).",
+    shards=dict(quick=8, thorough=16),
+    floor=dict(evaluations=50000, distinct=10000),
+    technique="runtime monitor: per-call shape and content-preservation oracles over a terminal-cell parse of input and output",
+    level_text="Each layout function is called on generated styled text and its result is judged by an independent oracle working on "
+               "terminal cells (visible rune + attribute set): width bound, ordered preservation of every non-whitespace cell, preserved line "
+               "breaks, no broken short words (Wrap); exact chunking (DumbWrap); exact padding; exact prefixing (Indent); bounded prefix plus "
+               "ellipsis losing at most one character (Snip); exact rune count without newline/control (SetLength). Small scope enumerated, rest sampled.",
+    level_note="Trusted: kit/term's SGR parser and the oracles in harness/verifchk/c13. Whitespace = unicode.IsSpace. Widths/heights < 1 are outside the statement and exercised under C06 only.",
+    assumptions=["input alphabet is what servitor itself produces: runes wrapped by ansi.Apply, never raw escape bytes (those are C01's subject)"],
+)
+
+PROPS["C14"] = simple(
+    "verifchk/c14", "TestVerifC14", "exploration",
+    "random trees (depth <= 6, <= 40 content characters) of style.{Bold,Italic,Underline,Strikethrough,Code,CodeBlock,Highlight,Color,Red,"
+    "Problem,Link,LinkBlock,Header,QuoteBlock,Bullet} over concatenated labelled text with embedded spaces and newlines, followed by 0..5 "
+    "layout operations (Wrap, DumbWrap, Pad, Indent, Snip at widths 1..30); second part: renderings of generated documents, items and frames "
+    "are checked for neutrality at every line end. Non-trivial = the tree has at least one content character; distinct = (tree, layout sequence).",
+    shards=dict(quick=8, thorough=16),
+    floor=dict(evaluations=20000, distinct=10000),
+    technique="runtime monitor: terminal attribute state machine over outputs of generated style compositions, compared with per-character expectations",
+    level_text="A terminal attribute machine replays every generated output: each content character must be displayed with exactly the flags of the "
+               "style functions wrapped around it (colour: one of the wrapping colours, none if none), no attribute may be active at any newline "
+               "or at the end of the string, and this must survive any sequence of layout operations. Sampled, not exhaustive.",
+    level_note="Trusted: kit/term and the expectation bookkeeping in harness/verifchk/c14. When two colours of the same plane are nested the statement gives no unique answer; either is accepted.",
+)
